@@ -63,6 +63,7 @@ func ruleC13(r *Report) {
 		}
 		r.Check(strip == "", "C13.emitted", "emitters of the signed message types serialise the built tree whole", "-", fmt.Sprintf("no Remove* on the tree in the %d emitter methods and their helpers", len(roots)), "the tree is altered between Element() and serialisation ("+strip+"): a logout message sent through that path loses its enveloped Signature (the redirect binding adds no other), or is emitted with content the signature did not cover")
 	}
+	safely(r, func() { checkNoCDATA(r, p, "C13.emitted") })
 	checkEscape(r, p, "C13.emitted", func(fn *ssa.Function) bool {
 		if fn.Signature.Recv() != nil && (isMethodOf(fn, "AuthnRequest") || isMethodOf(fn, "LogoutRequest") || isMethodOf(fn, "LogoutResponse") || isMethodOf(fn, "ArtifactResolve")) {
 			return true
